@@ -49,16 +49,26 @@ let c12_effective body =
       String.concat " " (List.map (fun cm -> show (L [Sym (comp_name cm); show_opt (effective cfg a cm)])) all_comps)
   | _ -> failwith "c12-effective: bad case"
 
-(* in: PROFILE ARGV   out: (found b) (outside b) (tame b) (canon (comp V)...) *)
+(* in: PROFILE ARGV   out: (found b) (tame b) (canon (comp V)...) *)
 let c12_hyps body =
   match parse_many body with
   | [p; a] ->
       let p = profile_of_index (n_of_int (num p)) and a = strs_of a in
-      let ((f, o), t) = hyps_b p a in
+      let (f, t) = hyps_b p a in
       String.concat " " (List.map show [
-        L [Sym "found"; bool_x f]; L [Sym "outside"; bool_x o]; L [Sym "tame"; bool_x t];
+        L [Sym "found"; bool_x f]; L [Sym "tame"; bool_x t];
         L (Sym "canon" :: List.map (fun cm -> L [Sym (comp_name cm); show_opt (canonical p cm)]) (pinned_comps p))])
   | _ -> failwith "c12-hyps: bad case"
+
+(* in: CWD ROOT GITDIR_RAW GLOBAL_ARGS   out: err | (ok ARGV)  — find_repository's normalisation, then global_args_for_exec *)
+let c12_normalize body =
+  match parse_many body with
+  | [cwd; root; gd; ga] ->
+      let ga = strs_of ga in
+      (match resolve_command_base_dir (str_of cwd) ga with
+       | None -> "err"
+       | Some base -> show (L [Sym "ok"; show_strs (global_args_for_exec (normalize_global_args ga (str_of root) base (str_of gd)))]))
+  | _ -> failwith "c12-normalize: bad case"
 
 (* special: the inventory with the model's verdict per entry *)
 let c12_inventory () =
@@ -80,5 +90,5 @@ let c12_inventory () =
                 (String.concat "" (List.map (fun c -> String.make 1 (Char.chr (int_of_n c))) why))) exceptions
 
 let () = run_driver ["c12-profile", c12_profile; "c12-effective-args", c12_effective_args; "c12-pins", c12_pins;
-                     "c12-effective", c12_effective; "c12-hyps", c12_hyps]
+                     "c12-effective", c12_effective; "c12-hyps", c12_hyps; "c12-normalize", c12_normalize]
                     ["c12-inventory", c12_inventory]
